@@ -131,6 +131,9 @@ impl CycleJudge {
 }
 
 pub struct PhysCfg {
+    /// 35-70 directory entries (more than one directory sector also in version 4), with removals and
+    /// re-creations so that freed slots in every directory sector are reused
+    pub many_entries: bool,
     /// fill the mini stream over several MiniFAT sectors, drain it from the end (so that the in-memory
     /// MiniFAT is trimmed below a sector boundary), fill again
     pub mini_churn: bool,
@@ -185,6 +188,28 @@ pub fn campaign(seed: u64, count: u64, max_ops: u64, cfg: &PhysCfg, ops_path: &s
             for i in 0..(n / 2 + 1) {
                 pending.push(format!("put {} {}", enc(&format!("/r{}", i)), hex(&pattern(2000 + r.below(2000) as usize, h * 17 + i as u64))));
             }
+        }
+        if cfg.many_entries {
+            let n = 35 + r.below(36) as usize;
+            let dirs = ["", "/d1", "/d2", "/d1/in"];
+            pending.push(format!("mkdir {}", enc("/d1")));
+            pending.push(format!("mkdir {}", enc("/d2")));
+            pending.push(format!("mkdir {}", enc("/d1/in")));
+            let mut made: Vec<String> = Vec::new();
+            for i in 0..n {
+                let p = format!("{}/e{}", r.pick(&dirs), i);
+                pending.push(format!("put {} {}", enc(&p), hex(&pattern(*r.pick(&[0usize, 1, 20, 64, 100]), i as u64))));
+                made.push(p);
+                if i % 7 == 6 {
+                    // free a slot somewhere in the middle and reuse it at once
+                    let k = r.below(made.len() as u64) as usize;
+                    let victim = made.remove(k);
+                    pending.push(format!("rm {}", enc(&victim)));
+                    pending.push(format!("put {} {}", enc(&format!("/n{}", i)), hex(&pattern(30, i as u64))));
+                    made.push(format!("/n{}", i));
+                }
+            }
+            pending.push(format!("rmall {}", enc("/d1")));
         }
         let n_ops = 6 + r.below(max_ops);
         let mut done = 0u64;
